@@ -504,6 +504,11 @@ func (st *state) validate(instance reflect.Value, schema *Schema, callerAnns *an
 			//
 			// Note: this is much faster than comparing with falseSchema using Equal.
 			isFalsy := schema.AdditionalProperties.Not != nil && reflect.ValueOf(*schema.AdditionalProperties.Not).IsZero()
+			// In draft-07 every keyword beside $ref is ignored, "not" included:
+			// such a schema is whatever its $ref target is, not the false schema.
+			if st.rs.draft == draft7 && schema.AdditionalProperties.Ref != "" {
+				isFalsy = false
+			}
 			if isFalsy {
 				var disallowed []string
 				for prop := range properties(instance) {
